@@ -493,7 +493,8 @@ def run(ctx):
     okc, logc = core.coq_build(["theories/Build/IcuKeysCheck.vo"])
     if not okc:
         raise core.Infra("IcuKeysCheck.v does not build: " + logc[-600:])
-    exe = os.path.join(bindir, "h_icu")
+    # mutation testing only: a harness binary built against a modified scratch copy of /repo (never set by ./check users)
+    exe = os.environ.get("VERIF_C20_HARNESS_EXE") or os.path.join(bindir, "h_icu")
     n = 1000 if ctx.quick else 10000
     root = os.path.join(ctx.work, "projects")
     shutil.rmtree(root, ignore_errors=True)
